@@ -1,5 +1,5 @@
 /-
-  Sipsp.Proofs.SigSpec — the message signature (`getMsgSig`, msg_sig.go) factors through a small "view" of the
+  Sipsp.Proofs.SigSpec — the message signature (`getMsgSigCore`, msg_sig.go) factors through a small "view" of the
   stored headers: lemmas for property C19.
 -/
 import Sipsp.Model.Sig
@@ -696,7 +696,7 @@ theorem sigFirsts_pairwise (L : List Nat) (ks : List SigKey) :
       rw [e] at this; simp at this
     · exact ih _
 
-/-! ### `getMsgSig` -/
+/-! ### `getMsgSigCore` -/
 
 /-- the loop's start state -/
 def sigInit (method : Nat) (cid tag : Buf) : SigLoopSt :=
@@ -705,18 +705,18 @@ def sigInit (method : Nat) (cid tag : Buf) : SigLoopSt :=
     pnc := (getCallIDSig cid).2.2 }
 
 theorem getMsgSig_reply (m : PSIPMsg) (b : Buf) (h : m.request = false) :
-    getMsgSig m b = ({}, .empty, false) := by
-  unfold getMsgSig; simp [h]
+    getMsgSigCore m b = ({}, .empty, false) := by
+  unfold getMsgSigCore; simp [h]
 
 theorem getMsgSig_request (m : PSIPMsg) (b : Buf) (h : m.request = true) (cid tag : Buf)
     (hc : m.pv.callid.callID.get? (b.extract 0 m.bufLen) = some cid)
     (ht : m.pv.from_.tag.get? (b.extract 0 m.bufLen) = some tag) :
-    getMsgSig m b =
+    getMsgSigCore m b =
       ((msgSigLoop (b.extract 0 m.bufLen) m.hl.pflags m.hl.hdrs.toList (sigInit m.fl.methodNo cid tag)).1.sig,
        (if (msgSigLoop (b.extract 0 m.bufLen) m.hl.pflags m.hl.hdrs.toList (sigInit m.fl.methodNo cid tag)).2 = true
         then Err.ok else if m.hl.n > m.hl.hdrs.size then Err.trunc else Err.ok),
        (msgSigLoop (b.extract 0 m.bufLen) m.hl.pflags m.hl.hdrs.toList (sigInit m.fl.methodNo cid tag)).1.pnc) := by
-  unfold getMsgSig
+  unfold getMsgSigCore
   simp only [h, Bool.not_true, Bool.false_eq_true, ↓reduceIte, hc, ht]
   show (match msgSigLoop (b.extract 0 m.bufLen) m.hl.pflags m.hl.hdrs.toList (sigInit m.fl.methodNo cid tag) with
         | (st, true) => (st.sig, Err.ok, st.pnc)
@@ -731,8 +731,8 @@ theorem getMsgSig_request (m : PSIPMsg) (b : Buf) (h : m.request = true) (cid ta
 theorem getMsgSig_outside (m : PSIPMsg) (b : Buf) (h : m.request = true)
     (hc : m.pv.callid.callID.get? (b.extract 0 m.bufLen) = none ∨
           m.pv.from_.tag.get? (b.extract 0 m.bufLen) = none) :
-    getMsgSig m b = ({}, .ok, true) := by
-  unfold getMsgSig
+    getMsgSigCore m b = ({}, .ok, true) := by
+  unfold getMsgSigCore
   simp only [h, Bool.not_true, Bool.false_eq_true, ↓reduceIte]
   rcases hc with hc | hc
   · rw [hc]
@@ -863,7 +863,7 @@ theorem flatMap_sigCh_length (L : List Nat) :
     simp only [List.flatMap_cons, List.length_append, List.length_cons]
     omega
 
-/-! ### the factorisation of `getMsgSig` -/
+/-! ### the factorisation of `getMsgSigCore` -/
 
 theorem sigInit_inv (method : Nat) (cid tag : Buf) :
     (sigInit method cid tag).sig.hdrSig.length + unseenCount (sigInit method cid tag).seen ≤ 8 := by
